@@ -106,7 +106,7 @@ ADDED = {
  "C02": " Also every list of exactly 3 operations (12^3) as the success branch of a transaction without predicates and as the failure branch of one with a false predicate.",
  "C03": " Also one log of six entries staging 4 MiB each under all 2^5 batchings (each also followed by close+reopen): every multiple of 4 MiB up to 24 MiB is crossed exactly at the last entry of some apply call.",
  "C07": " Also the real SnapshotServer.Stream with three leader writes landing before its k-th executed statement for every k (statement points in Stream, FSM.Lookup and commandSnapshot): streamed pairs = table content at the declared index.",
- "C11": " Part C's alphabet also holds a snapshot recovery of the follower table (real worker.recover -> Engine.Restore, at most once per path); known finding D14 (known_findings.json, findings/D14-*.json).",
+ "C11": " Part C's alphabet also holds a snapshot recovery of the follower table (real worker.recover -> Engine.Restore, at most once per path); known finding D14 (known_findings.json, findings/D14-*.json). Part D: event sequences (updates, sync, snapshot installs) on a real FSM whose listener looks at the FSM from inside the callback: what it is told is already served.",
  "C13": " Also every sequence of length 0..2 on ten pairwise different keys that a normalisation would merge.",
  "C14": " Two-manager race scenarios with lag are explored once more with the lagging replica moving forward by snapshot install into its non-empty store.",
  "C15": " Worker part (fake clock): every lease write that succeeds while the committed record names another node and has not expired is a violation; expiry boundary: node 2 asks at 18 exact instants between 2h after and 3.999s before node 1's lease runs out.",
